@@ -61,6 +61,7 @@ func ForProperty(prop string) []*Rule {
 // undecided obligation (fail closed).
 func RunRule(p *load.Program, r *Rule) (obs []report.Obligation, analysed []string) {
 	c := &Ctx{P: p, rule: r, Analysed: map[string]bool{}}
+	setupCanon(p)
 	func() {
 		defer func() {
 			if v := recover(); v != nil {
@@ -139,12 +140,26 @@ func (c *Ctx) Fn(pkgRel, name string) *ssa.Function {
 }
 
 func (c *Ctx) fnOpt(pkgRel, name string) *ssa.Function {
+	if canon != nil {
+		if f, ok := canon.fn[pkgRel+":"+name]; ok {
+			return f
+		}
+	}
+	return c.fnOptRaw(pkgRel, name)
+}
+
+func (c *Ctx) fnOptRaw(pkgRel, name string) *ssa.Function {
 	sp := c.P.SPkg(pkgRel)
 	if sp == nil {
 		return nil
 	}
 	if i := strings.Index(name, "."); i >= 0 {
 		tn, mn := name[:i], name[i+1:]
+		if canon != nil {
+			if al, ok := canon.typ[pkgRel+":"+tn]; ok {
+				tn = al.Obj().Name()
+			}
+		}
 		m := sp.Members[tn]
 		t, ok := m.(*ssa.Type)
 		if !ok {
@@ -189,6 +204,11 @@ func Q(fn *ssa.Function) string { return ir.QualifiedName(fn) }
 
 // TypeNamed returns the named type pkgRel.name of the module.
 func (c *Ctx) TypeNamed(pkgRel, name string) *types.Named {
+	if canon != nil {
+		if al, ok := canon.typ[pkgRel+":"+name]; ok {
+			return al
+		}
+	}
 	pk := c.P.Pkg(pkgRel)
 	if pk == nil {
 		return nil
